@@ -339,7 +339,7 @@ func (c *lexCtx) l1Separators() {
 				if id.is("strings", "", "Fields") {
 					rsep = " "
 				}
-				if id.is("strings", "", "Split") {
+				if id.is("strings", "", "Split") || id.is("strings", "", "SplitSeq") {
 					if k, ok := call.Call.Args[1].(*ssa.Const); ok {
 						rsep = constStringVal(k)
 					}
@@ -356,25 +356,28 @@ func (c *lexCtx) l1Separators() {
 		usesSplit := false
 		var parses []ssa.Instruction
 		var emptyTests []*ssa.BinOp
-		allInstrs(rfn, func(in ssa.Instruction) {
-			switch x := in.(type) {
-			case *ssa.Call:
-				id := callID(&x.Call)
-				if id.is("strings", "", "Split") {
-					usesSplit = true
-				}
-				if id.pkg == "strconv" && strings.HasPrefix(id.name, "Parse") || id.is(ttlvPath, "", "BitmaskByStr") {
-					parses = append(parses, x)
-				}
-			case *ssa.BinOp:
-				if x.Op == token.EQL || x.Op == token.NEQ {
-					for _, side := range []ssa.Value{x.X, x.Y} {
-						if k, ok := side.(*ssa.Const); ok && k.Value != nil && constStringVal(k) == "" && isStringConst(k) {
-							emptyTests = append(emptyTests, x)
+		// (the loop body of `for part := range strings.SplitSeq(..)` is a closure of the reader)
+		withClosures(rfn, func(rf2 *ssa.Function) {
+			allInstrs(rf2, func(in ssa.Instruction) {
+				switch x := in.(type) {
+				case *ssa.Call:
+					id := callID(&x.Call)
+					if id.is("strings", "", "Split") || id.is("strings", "", "SplitSeq") {
+						usesSplit = true
+					}
+					if id.pkg == "strconv" && strings.HasPrefix(id.name, "Parse") || id.is(ttlvPath, "", "BitmaskByStr") {
+						parses = append(parses, x)
+					}
+				case *ssa.BinOp:
+					if x.Op == token.EQL || x.Op == token.NEQ {
+						for _, side := range []ssa.Value{x.X, x.Y} {
+							if k, ok := side.(*ssa.Const); ok && k.Value != nil && constStringVal(k) == "" && isStringConst(k) {
+								emptyTests = append(emptyTests, x)
+							}
 						}
 					}
 				}
-			}
+			})
 		})
 		ekey := "ttlv." + fmtName + "/empty-mask"
 		if !usesSplit {
@@ -618,6 +621,12 @@ func (c *lexCtx) l3JSONStrings() {
 				arg = call.Call.Args[1]
 			}
 			if arg == nil || !fromStringParam(arg) {
+				return
+			}
+			// a raw copy on the true edge of a byte predicate that lets through only bytes encoding/json would copy
+			// unchanged (printable ASCII other than the quote, the backslash and the HTML-escaped <, >, &)
+			if why, ok := plainJSONGuard(call); ok {
+				r.OK("C04.L3", c.key(fn, "raw-string"), call.Pos(), "%s", why)
 				return
 			}
 			nRaw++
@@ -2070,4 +2079,128 @@ func (c *lexCtx) x8DatesTotal(rule string) {
 			r.OK(rule, key, fn.Pos(), "%d return(s) after the successful parse, each returning the date with the result of Next()", n)
 		}
 	}
+}
+
+// plainJSONGuard: the raw copy `at` is dominated by the true edge of a call pred(s) where pred is a function of the
+// package of the form `for each byte c of s { if <tests on c> { return false } } return true`, and for every byte
+// value the tests let through, encoding/json writes that byte unchanged inside a string: 0x20..0x7E except the
+// quote, the backslash, and <, >, & (escaped for HTML safety). The tests are followed for each of the 256 values.
+func plainJSONGuard(at *ssa.Call) (string, bool) {
+	var pred *ssa.Function
+	for _, dc := range dominatingConds(at.Block()) {
+		c, ok := dc.cond.(*ssa.Call)
+		if !ok || !dc.outcome {
+			continue
+		}
+		sc := c.Call.StaticCallee()
+		if sc == nil || sc.Blocks == nil || idOf(sc).pkg != ttlvPath || len(sc.Params) != 1 {
+			continue
+		}
+		if b, ok := sc.Params[0].Type().Underlying().(*types.Basic); !ok || b.Info()&types.IsString == 0 {
+			continue
+		}
+		pred = sc
+	}
+	if pred == nil {
+		return "", false
+	}
+	// the byte under test: s[i] with a non-constant index
+	isByte := func(v ssa.Value) bool {
+		if cv, ok := v.(*ssa.Convert); ok {
+			v = cv.X
+		}
+		switch x := v.(type) { // string indexing: Index (or Lookup in older go/ssa)
+		case *ssa.Lookup:
+			return x.X == ssa.Value(pred.Params[0])
+		case *ssa.Index:
+			return x.X == ssa.Value(pred.Params[0])
+		}
+		return false
+	}
+	var byteBlock *ssa.BasicBlock
+	allInstrs(pred, func(in ssa.Instruction) {
+		if v, ok := in.(ssa.Value); ok && isByte(v) && byteBlock == nil {
+			byteBlock = in.Block()
+		}
+	})
+	if byteBlock == nil {
+		return "", false
+	}
+	decide := func(cond ssa.Value, b int64) (bool, bool) {
+		bo, ok := cond.(*ssa.BinOp)
+		if !ok {
+			return false, false
+		}
+		x, y, op := bo.X, bo.Y, bo.Op
+		if _, isK := constIntVal(x); isK && isByte(y) {
+			x, y = y, x
+			op = map[token.Token]token.Token{token.LSS: token.GTR, token.LEQ: token.GEQ, token.GTR: token.LSS, token.GEQ: token.LEQ, token.EQL: token.EQL, token.NEQ: token.NEQ}[op]
+		}
+		k, isK := constIntVal(y)
+		if !isK || !isByte(x) {
+			return false, false
+		}
+		switch op {
+		case token.LSS:
+			return b < k, true
+		case token.LEQ:
+			return b <= k, true
+		case token.GTR:
+			return b > k, true
+		case token.GEQ:
+			return b >= k, true
+		case token.EQL:
+			return b == k, true
+		case token.NEQ:
+			return b != k, true
+		}
+		return false, false
+	}
+	safe := func(b int64) bool {
+		return b >= 0x20 && b <= 0x7E && b != '"' && b != 0x5C && b != '<' && b != '>' && b != '&'
+	}
+	for b := int64(0); b < 256; b++ {
+		// can the byte pass (reach the loop continuation / the final `return true`) ?
+		passes := false
+		on := map[*ssa.BasicBlock]bool{}
+		var walk func(blk *ssa.BasicBlock, first bool)
+		walk = func(blk *ssa.BasicBlock, first bool) {
+			if on[blk] || passes {
+				return
+			}
+			if !first && blk == byteBlock {
+				passes = true // next iteration: this byte was let through
+				return
+			}
+			on[blk] = true
+			defer func() { on[blk] = false }()
+			switch x := blk.Instrs[len(blk.Instrs)-1].(type) {
+			case *ssa.Return:
+				if k, ok := x.Results[0].(*ssa.Const); ok && k.Value != nil && k.Value.Kind() == constant.Bool && !constant.BoolVal(k.Value) {
+					return // rejected
+				}
+				passes = true
+			case *ssa.If:
+				if val, ok := decide(x.Cond, b); ok {
+					if val {
+						walk(blk.Succs[0], false)
+					} else {
+						walk(blk.Succs[1], false)
+					}
+					return
+				}
+				walk(blk.Succs[0], false)
+				walk(blk.Succs[1], false)
+			default:
+				for _, sc := range blk.Succs {
+					walk(sc, false)
+				}
+			}
+		}
+		walk(byteBlock, true)
+		if passes && !safe(b) {
+			return "", false
+		}
+	}
+	return "raw copy guarded by " + fnKey(pred) + ": for each of the 256 byte values its tests were followed, and every byte it lets through is one encoding/json copies unchanged (printable ASCII other than quote, backslash, <, >, &)", true
 }
